@@ -29,11 +29,35 @@ PROPS = {
                "before and after, and every read unchanged, also after the following restarts."),
 }
 
+CRASH_RULE = ("every history of the stated depth over the stated alphabet (after the stated clean prefix) is executed once on the real store with "
+              "the LD_PRELOAD shim calling back before every mutating libc filesystem call; the live directory copied at that moment is crash image k "
+              "(process-kill model). Every distinct (image, acked, in-flight) is checked structurally with independent decoders, then recovered with "
+              "open_with_recover, compared with {acked, acked+in-flight}, cleaned, and driven through a usability suffix; where stated, the recovery "
+              "itself is cut again at every mutating call (nested). states = distinct crash images; transitions = images recovered (incl. nested).")
+
+
+def crash(explanation, **kw):
+    d = {"engines": [{"engine": "crash", "shim": True}], "rule": CRASH_RULE, "explanation": explanation}
+    d.update(kw)
+    return d
+
+
+PROPS.update({
+    "C03": crash("Crash atomicity: at every boundary between two mutating filesystem calls of every history (incl. first-time initialisation, rollover, checkpoint, "
+                 "multi-key remove_range, records and blobs larger than the 8 KiB buffers) the next open succeeds, shows acked or acked+in-flight, and stays usable; "
+                 "recovery itself is cut again at every call."),
+    "C20": crash("On every crash image an independent decoder requires: only complete checksummed records (+ at most one end marker) per segment, versions strictly "
+                 "increasing and inside (iN,(i+1)N], a completely parsing snapshot, snapshot+log == acked or acked+in-flight, no version reused within a history or after recovery.",
+                 engines=[{"engine": "crash", "shim": True}, {"engine": "seq", "shim": False}]),
+})
+
 ENGINES = [
     {"name": "seq", "path": "harness/src/seq.rs", "serves_properties": ["C01", "C02", "C07", "C12", "C13"],
      "kind_free_text": "bounded-exhaustive operation-sequence enumeration on the real store vs BTreeMap model + independent on-disk decoders"},
+    {"name": "crash", "path": "harness/src/crash.rs", "serves_properties": ["C03", "C20"],
+     "kind_free_text": "every syscall boundary of every bounded history: live-directory crash images via LD_PRELOAD shim, recovered and checked, nested in recovery"},
 ]
 
 # properties not (yet) claimed; kept current as engines land
 NOT_APPLICABLE = {p: "engine not built yet in this round (planned, see DESIGN.md §3)" for p in
-                  ["C03", "C04", "C05", "C06", "C08", "C09", "C10", "C11", "C14", "C15", "C16", "C17", "C18", "C19", "C20"]}
+                  ["C04", "C05", "C06", "C08", "C09", "C10", "C11", "C14", "C15", "C16", "C17", "C18", "C19"]}
